@@ -97,7 +97,7 @@ fn steer_mode<C: RangeCombo>(rng: &mut Rng, e: &Enc<C>, w: u32, s: u32, p: u32, 
     if total < 4 || scale == 0 {
         return random(rng);
     }
-    match mode.unwrap_or_else(|| rng.next() % 10) {
+    match mode.unwrap_or_else(|| rng.next() % 11) {
         0 | 1 | 2 => {
             // straddle a boundary T inside the interval: the wrap point 2^S, the next
             // multiple of 2^(S-W) or of 2^(S-1) above `lower`
@@ -185,6 +185,26 @@ fn steer_mode<C: RangeCombo>(rng: &mut Rng, e: &Enc<C>, w: u32, s: u32, p: u32, 
                 d += thr;
             }
             let a = if cands.is_empty() { rng.below(maxa + 1) } else { *rng.pick(&cands) };
+            cdf_around(p, a, a + pr)
+        }
+        8 => {
+            // new range `scale * p` on / next to the renormalisation threshold U = 2^(S-W):
+            // U-1, U, U+1, or inside the window (U - 2^(S-2W), U) where a test on the two top words
+            // only would not renormalise
+            let v = if s > 2 * w { 1u128 << (s - 2 * w) } else { 1 };
+            let p0 = (thr - 1) / scale; // largest p with scale * p <= U - 1
+            let mut cands: Vec<u128> = vec![p0, p0 + 1, p0.saturating_sub(1), (thr + scale - 1) / scale];
+            cands.retain(|&x| x >= 1 && x < total);
+            if cands.is_empty() {
+                return random(rng);
+            }
+            let inwin: Vec<u128> = cands.iter().copied().filter(|&x| scale * x < thr && scale * x + v > thr).collect();
+            let pr = if !inwin.is_empty() && rng.chance(2, 3) { *rng.pick(&inwin) } else { *rng.pick(&cands) };
+            let a = match rng.next() % 3 {
+                0 => 0,
+                1 => total - pr,
+                _ => rng.below(total - pr + 1),
+            };
             cdf_around(p, a, a + pr)
         }
         5 => {
@@ -549,6 +569,10 @@ fn gen_sweeps(rng: &mut Rng, tier: &str, out: &mut Vec<String>) {
 }
 
 fn gen_combo<C: RangeCombo>(rng: &mut Rng, w: u32, s: u32, bps: &[(u32, Vec<u32>)], n_enc: usize, n_dec: usize, out: &mut Vec<String>) {
+    // threshold regime (most relevant for State > 2·Word, harmless elsewhere)
+    for _ in 0..(if s > 2 * w { n_enc / 4 } else { n_enc / 16 }) {
+        out.push(gen_threshold_line::<C>(rng, w, s, bps));
+    }
     for i in 0..n_enc {
         let maxlen = if i % 8 == 0 { 60 } else { 24 };
         out.push(gen_enc_history::<C>(rng, w, s, bps, maxlen));
@@ -617,6 +641,12 @@ pub fn gen(rng: &mut Rng, tier: &str, out: &mut Vec<String>) {
     out.push("rangedec 8 10 | words 12,34 | dec 8 8 0,80,80,100 | raw".into());
     out.push("rangedec 8 10 | words 12,34 | dec 8 8 0,100 | raw".into());
     out.push("range 8 10 | new | enc 8 8 0 80 | decoder 8 8 0,80,100 8 8 1,80,100 | raw".into());
+    // P == W, first symbol of one quantum: `range` is 2^(S-W) - 1 before the first renormalisation
+    // (probabilities 1,3,100,152 resp. 1,257,20000,45278; message 0 1 0 0)
+    out.push("range 8 20 | new | enc 8 8 0 1 | raw | enc 8 8 1 3 | raw | enc 8 8 0 1 | raw | enc 8 8 0 1 | raw | export | spec | intodec | dec 8 8 0,1,4,68,100 | dec 8 8 0,1,4,68,100 | dec 8 8 0,1,4,68,100 | dec 8 8 0,1,4,68,100 | exhausted".into());
+    out.push("range 10 40 | new | enc 10 10 0 1 | raw | enc 10 10 1 101 | raw | enc 10 10 0 1 | raw | enc 10 10 0 1 | raw | export | spec | intodec | dec 10 10 0,1,102,4f22,10000 | dec 10 10 0,1,102,4f22,10000 | dec 10 10 0,1,102,4f22,10000 | dec 10 10 0,1,102,4f22,10000 | exhausted".into());
+    out.push("range 8 40 | new | enc 8 8 ff 1 | raw | enc 8 8 0 1 | raw | enc 8 8 80 2 | raw | export | spec".into());
+    out.push("range 20 80 | new | enc 20 20 0 1 | raw | enc 20 20 ffffffff 1 | raw | enc 20 20 1 3 | raw | export | spec".into());
     gen_sweeps(rng, tier, out);
     // a malformed line and glue cases
     out.push("range 8 10 | new | frobnicate".into());
@@ -635,6 +665,62 @@ pub fn gen(rng: &mut Rng, tier: &str, out: &mut Vec<String>) {
             _ => {}
         }
     }
+}
+
+/// class of the pre-renormalisation range `r1 = (range >> P) * p` relative to the threshold
+/// `U = 2^(S-W)` (`None`: nowhere near)
+fn threshold_class(r1: u128, w: u32, s: u32) -> Option<&'static str> {
+    let u = 1u128 << (s - w);
+    let v = if s > 2 * w { 1u128 << (s - 2 * w) } else { 1 };
+    if r1 + 1 == u {
+        Some("r1=U-1")
+    } else if r1 == u {
+        Some("r1=U")
+    } else if r1 == u + 1 {
+        Some("r1=U+1")
+    } else if r1 < u && r1 + v > u {
+        Some("r1.in.(U-2^(S-2W),U)")
+    } else if r1 > u && r1 < u + v {
+        Some("r1.in.(U,U+2^(S-2W))")
+    } else {
+        None
+    }
+}
+
+/// messages in the threshold regime for the correspondence: `P == W` (or the largest available
+/// precision), a first symbol of one quantum (so that `range` becomes `2^(S-W) - 1` before the
+/// first renormalisation), then symbols steered onto the threshold classes
+fn gen_threshold_line<C: RangeCombo>(rng: &mut Rng, w: u32, s: u32, bps: &[(u32, Vec<u32>)]) -> String {
+    let (b, ps) = bps.last().unwrap();
+    let (b, p) = (*b, *ps.last().unwrap());
+    let total = pow2(p);
+    let mut e: Enc<C> = RangeEncoder::new();
+    let mut line = format!("range {:x} {:x} | new", w, s);
+    let mut encoded: Vec<(u32, u32, Vec<u128>)> = Vec::new();
+    let n = 2 + rng.next() % 7;
+    for i in 0..n {
+        let (cdf, sym) = if i == 0 && rng.chance(3, 4) {
+            let a = match rng.next() % 3 { 0 => 0, 1 => total - 1, _ => rng.below(total) };
+            cdf_around(p, a, a + 1)
+        } else {
+            let mode = match rng.next() % 4 { 0 | 1 => Some(8), 2 => Some(4), _ => Some(5) };
+            steer_mode::<C>(rng, &e, w, s, p, &[], b, mode)
+        };
+        if !matches!(guarded(|| C::enc_sym(&mut e, b, p, &cdf, sym)), Ok(Some(ref x)) if x == "ok") {
+            break;
+        }
+        line.push_str(&format!(" | enc {:x} {:x} {:x} {:x}", b, p, cdf[sym], cdf[sym + 1] - cdf[sym]));
+        if rng.chance(1, 3) {
+            line.push_str(" | raw | export | spec");
+        }
+        encoded.push((b, p, cdf));
+    }
+    line.push_str(" | raw | nw | export | spec | intodec");
+    for (b, p, cdf) in &encoded {
+        line.push_str(&format!(" | dec {:x} {:x} {}", b, p, show_list(cdf.clone())));
+    }
+    line.push_str(" | exhausted | raw");
+    line
 }
 
 // ---------------------------------------------------------------------------------------
